@@ -282,6 +282,13 @@ impl ArgumentResult {
 
     pub(crate) fn remove_positional(&mut self, position: usize) -> Option<Value> {
         if self.positional.len() > position {
+            // positions recorded as already consumed refer to the indices before the removal
+            self.touched = self
+                .touched
+                .iter()
+                .filter(|&&idx| idx != position)
+                .map(|&idx| if idx > position { idx - 1 } else { idx })
+                .collect();
             Some(self.positional.remove(position))
         } else {
             None
